@@ -106,8 +106,13 @@ def check_case(case, ctx):
     doc_index = [i for i, (lab, _) in enumerate(labels) if lab != 'text']
     first = min(i for i, (lab, _) in enumerate(labels) if lab == 'src')
     kinds = [lab for lab, _ in labels if lab != 'text']
-    for offset_linenos in (False, True):
-        f_num = ex.format_src(linenos=True, colored=False, want=True, prefix=True, offset_linenos=offset_linenos).split('\n')
+    # the doctest's own configuration (what --offset stores) only speaks when the caller leaves the choice open (None)
+    conf = case.get('config_offset')
+    if conf is not None:
+        ex.config['offset_linenos'] = conf
+    for asked in (False, True, None):
+        offset_linenos = bool(conf) if asked is None else asked
+        f_num = ex.format_src(linenos=True, colored=False, want=True, prefix=True, offset_linenos=asked).split('\n')
         if len(f_num) != len(fmt_lines):
             raise Violation('linenos:line_count', 'numbered text has {} lines, expected {}\n{}'.format(
                 len(f_num), len(fmt_lines), '\n'.join(f_num)))
@@ -145,13 +150,14 @@ def case_strategy(D, max_groups):
     c = programs.gen_program(D, max_groups=max_groups)
     c['lineno'] = D.choice([1, 1, 7, 95, 998])
     c['style'] = D.choice(['freeform', 'freeform', 'google'])
+    c['config_offset'] = D.choice([None, None, True, False])
     return c
 
 
 def _check(case, ctx):
     ctx.count()
     groups = case['groups']
-    ctx.tag('style:' + case['style'], 'lineno:' + str(case['lineno']))
+    ctx.tag('style:' + case['style'], 'lineno:' + str(case['lineno']), 'config_offset:' + str(case.get('config_offset')))
     if case['style'] == 'google' and 'leading_prose' in case['features']:
         # the reported start line of a google block whose body does not begin with a prompt is finding F7 (C08);
         # such blocks are not used here
